@@ -1051,11 +1051,18 @@ static ares_server_t *ares_random_server(ares_channel_t *channel)
 static void server_probe_cb(void *arg, ares_status_t status, size_t timeouts,
                             const ares_dns_record_t *dnsrec)
 {
-  (void)arg;
+  ares_server_t *server = arg;
   (void)status;
   (void)timeouts;
   (void)dnsrec;
-  /* Nothing to do, the logic internally will handle success/fail of this */
+  /* The logic internally will handle success/fail of this.  But however the
+   * probe ended, even if it could not be sent at all (allocation failure,
+   * connection refused before the query was attached to a connection), the
+   * server must become eligible for the next probe or it is never tried
+   * again. */
+  if (server != NULL) {
+    server->probe_pending = ARES_FALSE;
+  }
 }
 
 /* Determine if we should probe a downed server */
@@ -1112,7 +1119,7 @@ static void ares_probe_failed_server(ares_channel_t      *channel,
   probe_server->probe_pending = ARES_TRUE;
   ares_send_nolock(channel, probe_server,
                    ARES_SEND_FLAG_NOCACHE | ARES_SEND_FLAG_NORETRY,
-                   query->query, server_probe_cb, NULL, NULL);
+                   query->query, server_probe_cb, probe_server, NULL);
 }
 
 static size_t ares_calc_query_timeout(const ares_query_t   *query,
